@@ -50,6 +50,8 @@ func runC20(c *eng.Ctx) {
 	bucketIsTheUnionOfItsTries(c)
 	sortedTogetherAndReset(c)
 	terminatorLabelNeedsASibling(c)
+	heapIndexReadOnlyWhereRight(c)
+	reusedBitBufferClearedWhole(c)
 }
 
 // ---- (1) iterator keys -----------------------------------------------------------------------------------------------------------
